@@ -102,6 +102,12 @@ int main(int argc, char** argv)
     run_sqrt<cnl::elastic_integer<63>>(out, 17);
     run_sqrt<cnl::elastic_integer<64, unsigned>>(out, 18);
     run_sqrt<cnl::elastic_integer<100>>(out, 19);
+    // unsigned narrowest with odd digit counts (the halved digit count rounds up)
+    run_sqrt<cnl::elastic_integer<7, unsigned>>(out, 33);
+    run_sqrt<cnl::elastic_integer<31, unsigned>>(out, 34);
+    run_sqrt<cnl::elastic_integer<17, std::uint8_t>>(out, 35);
+    run_sqrt<cnl::elastic_integer<63, unsigned>>(out, 36);
+    run_sqrt<cnl::elastic_integer<9, std::int8_t>>(out, 37);
     run_sqrt<SI<std::int32_t, -16>>(out, 20);
     run_sqrt<SI<std::uint16_t, -8>>(out, 21);
     run_sqrt<SI<std::int64_t, -60>>(out, 22);
